@@ -76,3 +76,23 @@ Theorem brace_expand_single_key_partial : forall k v t fuel,
   replace_all fuel (brace k) v (render_t k t) = subst_t v t.
 Proof. exact replace_all_render. Qed.
 Print Assumptions brace_expand_single_key_partial.
+
+(* -X importpath.name=value: package path free of '=', variable name free of
+   '.' and '=': the three parts come back for ANY value (the value may contain
+   '=' and '.') *)
+Theorem xflag_split_roundtrip : forall pkg name value,
+  forallb (fun x => negb (x =? EQ)) pkg = true ->
+  forallb (fun x => negb (x =? EQ)) name = true ->
+  forallb (fun x => negb (x =? DOT)) name = true ->
+  xflag_split (pkg ++ DOT :: name ++ EQ :: value) = Some (pkg, name, value).
+Proof. exact xflag_split_join. Qed.
+Print Assumptions xflag_split_roundtrip.
+
+(* compiler flags: flags rendered into CCFLAGS / CFLAGS come back one by one,
+   followed by the configured lists, in this order *)
+Theorem merge_compiler_flags_roundtrip : forall fs1 fs2 cfg_cc cfg_c,
+  forallb wf_flag fs1 = true -> forallb wf_flag fs2 = true ->
+  merge_compiler (join_sp (map pc_render fs1)) (join_sp (map pc_render fs2)) cfg_cc cfg_c
+  = map pc_value fs1 ++ map pc_value fs2 ++ cfg_cc ++ cfg_c.
+Proof. exact merge_compiler_roundtrip. Qed.
+Print Assumptions merge_compiler_flags_roundtrip.
